@@ -520,6 +520,24 @@ def check_collect(case, ctx, backend):
     pidx = {id(p): i for i, p in enumerate(pts)}
     eidx = {id(e): i for i, e in enumerate(exs)}
     n, m = len(pts), len(exs)
+    # a declared LMI holds, entry by entry, the expressions the user wrote (also where (a,b) and (b,a) differ as written)
+    for obj, mat in env.lmi_raw:
+        stored = obj.matrix_of_expressions
+        if stored.shape != (len(mat), len(mat)):
+            ctx.fail("lmi-shape-differs-from-declared", "declared %dx%d, stored %r" % (len(mat), len(mat), stored.shape))
+            continue
+        for a in range(len(mat)):
+            for b in range(len(mat)):
+                ent = mat[a][b]
+                want = sem.functional(ent) if isinstance(ent, Expression) else ({("1",): float(ent)} if ent != 0 else {})
+                if not sem.fun_equal(sem.functional(stored[a, b]), want):
+                    ctx.fail("lmi-entry-differs-from-declared", "entry (%d,%d) of a declared %dx%d LMI is not the expression "
+                             "the user wrote there%s" % (a, b, len(mat), len(mat),
+                                                         " (the matrix is not symmetric as written)" if not (isinstance(mat[b][a], Expression) and mat[b][a] is ent) else ""))
+                    break
+            else:
+                continue
+            break
     scal, lmis = expected_model(env)
     kinds_present = set(k for (_s, _f, k, _o) in scal) | set("lmi:" + k for (_m, k) in lmis)
     ctx.label("backend:" + backend)
